@@ -1,13 +1,13 @@
 package main
 
 import (
-	"runtime/debug"
 	"encoding/json"
 	"fmt"
 	"math/rand"
 	"os"
 	"path/filepath"
 	"runtime"
+	"runtime/debug"
 	"sort"
 	"strconv"
 	"strings"
@@ -15,14 +15,15 @@ import (
 )
 
 type checkOpts struct {
-	property string
-	tier     string
-	repo     string
-	verif    string
-	only     string
-	overlay  string
-	verbose  bool
-	noReplay bool
+	property    string
+	tier        string
+	repo        string
+	verif       string
+	only        string
+	overlay     string
+	verbose     bool
+	noReplay    bool
+	sweepUpdate bool
 }
 
 type Finding struct {
@@ -401,6 +402,15 @@ func runCheck(opt *checkOpts) int {
 			boundedEv = append(boundedEv, rec)
 		}
 	}
+	// ---- zero-annotation safety sweep (C06 only; regression check against a committed baseline) ----
+	var sweepEv map[string]any
+	if opt.property == "C06" && opt.only == "" {
+		sw := runSweep(repo, opt, opt.sweepUpdate)
+		violLines = append(violLines, sw.violLines...)
+		violations += sw.violations
+		sweepEv = sw.evidence
+		fmt.Printf("govc: sweep functions=%v clauses=%v discharged=%v baseline=%v rechecked=%v regressions=%d wall=%vs\n", sw.evidence["functions_swept"], sw.evidence["safety_clauses_generated"], sw.evidence["safety_clauses_discharged"], sw.evidence["baseline_clauses"], sw.evidence["baseline_clauses_rechecked"], sw.violations, sw.evidence["wall_s"])
+	}
 	for _, l := range violLines {
 		fmt.Println(l)
 	}
@@ -505,6 +515,7 @@ func runCheck(opt *checkOpts) int {
 			"stale_findings":                        stale,
 			"undecided_clauses_of_the_property":     und,
 			"bounded_standins":                      boundedEv,
+			"safety_sweep":                          sweepEv,
 			"preconditions_assumed_at_entry_points": entryPre,
 			"max_query_kB":                          maxQuery / 1024,
 			"explanation":                           "obligations = SMT queries generated from /repo's current source for the functions and lemmas listed (safety, frame, loop invariant entry/preservation, variants, call preconditions, postconditions); discharged = answered unsat. Refuted obligations that are listed known findings are reported separately and are not counted.",
